@@ -988,11 +988,18 @@ def run_items(ctx, arch, items, assume, stats, check_image=True):
         n = [i for i, e in enumerate(ends) if k < e][0]
         root, desc, v = items[n]
         tag = m.tags[who[k]] if who is not None and k < len(who) else ()
+        wh = None
+        for fr in reversed(tag):
+            # the innermost function above the byte-moving leaves (dump_data / storage dump)
+            if fr[0].endswith('::dump_data') or fr[0].endswith('>::dump'):
+                continue
+            wh = '%s:%d' % (fr[1], fr[2])
+            break
         raise Fail('encoding-is-determined-by-the-value',
                    '%s: byte %d of its encoding (offset %d of the archive, %d such byte(s) in all) is %s: two encodings of the same '
                    'value differ, and memory that is not part of the value is disclosed%s'
                    % (shape_text(desc, specs[n][1]), k - (ends[n - 1] if n else 0), k, len(bad), show_cell(cells[k]),
-                      ('; the byte was put there by %s' % chain_text(tag)) if tag else ''))
+                      ('; the byte was put there by %s' % chain_text(tag)) if tag else ''), wh)
     note_stats(stats, m)
     return {'bytes': ends[-1] if ends else 0, 'cells': cells}
 
